@@ -51,7 +51,13 @@ pub fn crypter_new_fails(
 
 pub fn established(role: Role, policy: SecurityPolicy, mode: MessageSecurityMode) -> SecureChannel {
     let mut c = SecureChannel::verif_new(role, policy, mode, 7, 1, DateTime::null(), DecodingOptions::minimal());
-    let keys = || Some((vec![1u8; 32], vec![2u8; 32], vec![3u8; 16]));
+    let (sign_len, enc_len) = match policy {
+        SecurityPolicy::Basic128Rsa15 => (16, 16),
+        SecurityPolicy::Basic256 => (24, 32),
+        SecurityPolicy::Aes128Sha256RsaOaep => (32, 16),
+        _ => (32, 32),
+    };
+    let keys = || Some((vec![1u8; sign_len], vec![2u8; enc_len], vec![3u8; 16]));
     c.verif_set_keys(keys(), keys());
     c
 }
@@ -69,7 +75,7 @@ macro_rules! crypto_cut {
         #[kani::stub(::openssl::symm::Cipher::block_size, cipher_block_size)]
         #[kani::stub(::openssl::symm::Crypter::new, crypter_new_fails)]
         #[kani::stub(::std::fmt::format, crate::stubs::fmt_format)]
-        #[kani::stub(::std::string::String::from_utf8, crate::stubs::string_from_utf8)]
+        #[kani::stub(::std::string::String::from_utf8, crate::stubs::string_from_utf8_trusting)]
         #[kani::stub(::chrono::Utc::now, crate::stubs::utc_now)]
         $(#[$m])*
         pub fn $name() $body
@@ -103,51 +109,69 @@ macro_rules! msg_chunk {
 
 // Sign mode, SHA-1 policy (signature 20 bytes): chunks shorter than, equal to and longer than header + signature
 msg_chunk!(c09_q_msg_sign_sha1_n16, SecurityPolicy::Basic128Rsa15, MessageSecurityMode::Sign, 16, 16, 2);
-msg_chunk!(c09_q_msg_sign_sha1_n30, SecurityPolicy::Basic128Rsa15, MessageSecurityMode::Sign, 30, 30, 2);
-msg_chunk!(c09_q_msg_sign_sha256_n24, SecurityPolicy::Basic256Sha256, MessageSecurityMode::Sign, 24, 24, 2);
+msg_chunk!(c09_t_msg_sign_sha1_n30, SecurityPolicy::Basic128Rsa15, MessageSecurityMode::Sign, 30, 30, 2);
+msg_chunk!(c09_t_msg_sign_sha256_n24, SecurityPolicy::Basic256Sha256, MessageSecurityMode::Sign, 24, 24, 2);
 msg_chunk!(c09_t_msg_sign_sha256_n60, SecurityPolicy::Basic256Sha256, MessageSecurityMode::Sign, 60, 60, 2);
 // declared size smaller than the buffer (trailing bytes) and larger than it
 msg_chunk!(c09_q_msg_sign_sha1_size_below_buffer, SecurityPolicy::Basic128Rsa15, MessageSecurityMode::Sign, 48, 44, 2);
 msg_chunk!(c09_t_msg_sign_sha1_size_above_buffer, SecurityPolicy::Basic128Rsa15, MessageSecurityMode::Sign, 44, 48, 2);
 // SignAndEncrypt: ciphertext of a length that is / is not a multiple of the block size, and empty
-msg_chunk!(c09_q_msg_encrypt_sha1_n16_empty_ciphertext, SecurityPolicy::Basic128Rsa15, MessageSecurityMode::SignAndEncrypt, 16, 16, 2);
+msg_chunk!(c09_t_msg_encrypt_sha1_n16_empty_ciphertext, SecurityPolicy::Basic128Rsa15, MessageSecurityMode::SignAndEncrypt, 16, 16, 2);
 msg_chunk!(c09_q_msg_encrypt_sha1_n37_ragged_ciphertext, SecurityPolicy::Basic128Rsa15, MessageSecurityMode::SignAndEncrypt, 37, 37, 2);
 msg_chunk!(c09_t_msg_encrypt_sha256_n48, SecurityPolicy::Basic256Sha256, MessageSecurityMode::SignAndEncrypt, 48, 48, 2);
 // mode None: everything is passed through
 msg_chunk!(c09_q_msg_none_n20, SecurityPolicy::None, MessageSecurityMode::None, 20, 20, 2);
 
-/// An OPN chunk naming a real policy with a null / symbolic-length sender certificate and thumbprint, on a fresh server channel.
-crypto_cut! {
-#[kani::unwind(70)]
-pub fn c09_q_opn_null_certificate() {
-    const URI: &[u8] = b"http://opcfoundation.org/UA/SecurityPolicy#Basic256Sha256";
-    const N: usize = 12 + 4 + 57 + 4 + 4 + 8;
-    let mut bytes: [u8; N] = kani::any();
-    bytes[0] = b'O';
-    bytes[1] = b'P';
-    bytes[2] = b'N';
-    bytes[3] = b'F';
-    bytes[4] = N as u8;
-    bytes[5] = 0;
-    bytes[6] = 0;
-    bytes[7] = 0;
-    bytes[12] = 57;
-    bytes[13] = 0;
-    bytes[14] = 0;
-    bytes[15] = 0;
+const URI: &[u8; 57] = b"http://opcfoundation.org/UA/SecurityPolicy#Basic256Sha256";
+const OPN1_LEN: usize = 12 + 4 + 57 + 4 + 4 + 8;
+
+/// The concrete skeleton of an OPN chunk naming Basic256Sha256 (built at compile time: no run-time loop).
+const fn opn_skeleton() -> [u8; OPN1_LEN] {
+    let mut b = [0u8; OPN1_LEN];
+    b[0] = b'O';
+    b[1] = b'P';
+    b[2] = b'N';
+    b[3] = b'F';
+    b[4] = OPN1_LEN as u8;
+    b[12] = 57;
     let mut i = 0;
     while i < 57 {
-        bytes[16 + i] = URI[i];
+        b[16 + i] = URI[i];
         i += 1;
     }
-    // sender certificate and thumbprint: null (-1) or empty (0), chosen by the solver
-    let null_cert: bool = kani::any();
-    let v: u8 = if null_cert { 0xFF } else { 0 };
-    let mut i = 0;
-    while i < 8 {
-        bytes[73 + i] = if i < 4 { v } else { 0xFF };
-        i += 1;
-    }
+    b
+}
+
+/// An OPN chunk naming a real policy with a null sender certificate and a null thumbprint, on a
+/// fresh server channel; channel id and the 8 trailing bytes symbolic.
+crypto_cut! {
+#[kani::unwind(2)]
+pub fn c09_t_opn_null_certificate() {
+    const SKELETON: [u8; OPN1_LEN] = opn_skeleton();
+    let mut bytes: [u8; OPN1_LEN] = SKELETON;
+    let (c0, c1, c2, c3): (u8, u8, u8, u8) = (kani::any(), kani::any(), kani::any(), kani::any());
+    bytes[8] = c0;
+    bytes[9] = c1;
+    bytes[10] = c2;
+    bytes[11] = c3;
+    let v: u8 = 0xFF; // null certificate (an empty one reaches X509 parsing, which is FFI)
+    bytes[73] = v;
+    bytes[74] = v;
+    bytes[75] = v;
+    bytes[76] = v;
+    bytes[77] = 0xFF;
+    bytes[78] = 0xFF;
+    bytes[79] = 0xFF;
+    bytes[80] = 0xFF;
+    let tail: [u8; 8] = kani::any();
+    bytes[81] = tail[0];
+    bytes[82] = tail[1];
+    bytes[83] = tail[2];
+    bytes[84] = tail[3];
+    bytes[85] = tail[4];
+    bytes[86] = tail[5];
+    bytes[87] = tail[6];
+    bytes[88] = tail[7];
     let mut channel = SecureChannel::verif_new(Role::Server, SecurityPolicy::None, MessageSecurityMode::None, 0, 0, DateTime::null(), DecodingOptions::minimal());
     let r = channel.verify_and_remove_security(&bytes); // must not panic
     assert!(r.is_err(), "an OPN without a sender certificate on a secured policy is a security error");
@@ -156,31 +180,18 @@ pub fn c09_q_opn_null_certificate() {
 }
 }
 
-/// Two steps on an established Sign channel: an OPN chunk with an unknown policy URI (rejected), then a MSG chunk:
-/// the rejected OPN must not leave the channel in a state in which the next chunk panics.
+/// Two steps on an established Sign channel: an OPN chunk with an unknown (3-character) policy URI is rejected; the MSG
+/// chunk that follows must still be handled without a panic (a rejected OPN must not change the channel's policy).
 crypto_cut! {
-#[kani::unwind(60)]
-pub fn c09_q_rejected_opn_then_msg() {
-    const N1: usize = 12 + 4 + 3 + 4 + 4;
-    let mut opn: [u8; N1] = kani::any();
-    opn[0] = b'O';
-    opn[1] = b'P';
-    opn[2] = b'N';
-    opn[3] = b'F';
-    opn[4] = N1 as u8;
-    opn[5] = 0;
-    opn[6] = 0;
-    opn[7] = 0;
-    opn[12] = 3; // a 3-byte policy URI: no real policy
-    opn[13] = 0;
-    opn[14] = 0;
-    opn[15] = 0;
-    kani::assume(opn[16] < 0x80 && opn[17] < 0x80 && opn[18] < 0x80);
-    let mut i = 19;
-    while i < N1 {
-        opn[i] = 0xFF; // null certificate and thumbprint
-        i += 1;
-    }
+#[kani::unwind(2)]
+pub fn c09_t_rejected_opn_then_msg() {
+    let u: [u8; 3] = kani::any();
+    kani::assume(u[0] < 0x80 && u[1] < 0x80 && u[2] < 0x80);
+    let opn: [u8; 27] = [
+        b'O', b'P', b'N', b'F', 27, 0, 0, 0, 7, 0, 0, 0, // header, channel id 7
+        3, 0, 0, 0, u[0], u[1], u[2], // policy uri
+        0xFF, 0xFF, 0xFF, 0xFF, 0xFF, 0xFF, 0xFF, 0xFF, // null certificate, null thumbprint
+    ];
     let mut channel = established(Role::Server, SecurityPolicy::Basic128Rsa15, MessageSecurityMode::Sign);
     let r1 = channel.verify_and_remove_security(&opn);
     assert!(r1.is_err(), "an unknown policy is rejected");
